@@ -220,7 +220,7 @@ def random_abstract(rnd):
             if r < 0.25:
                 out.append({"op": "tick", "n": rnd.choice([1, 9, 15, 30, 86403])})
             elif r < 0.5:
-                out.append({"op": "insert", "n": rnd.choice([1, 1, 2, 3, 30, 49, 50, 51, 70])})
+                out.append({"op": "insert", "n": rnd.choice([1, 1, 2, 3, 30, 49, 50, 51, 70, 101, 130])})
             elif r < 0.65:
                 out.append({"op": "replace", "n": 1})
             elif r < 0.8:
